@@ -1279,8 +1279,24 @@ def check_comb_gen(r, rule):
             return undecided(f"returned value {show(ret, 60)} is not a loop accumulator")
         ret = accs.pop()
         early = [(g, strip(l)) for g, l in lv if head(strip(l)) != "after" and head(strip(l)) != "raise"]
-    outer = s.loops.get(ret[1])
+    outer = s.loops.raw(ret[1])
     name = ret[2]
+    if outer is not None and outer.breaks:
+        # the enumeration over the number of deletions may stop early once there is nothing left to delete: ``if d > len(seq): break`` skips
+        # only empty rounds (there is no way of choosing more positions than the string has); ``d >= len(seq)`` also skips the round that
+        # deletes everything - the empty string, the only variant two short disjoint sequences share.  Anything else is not decided here.
+        for cond_, vals_ in outer.breaks:
+            c_ = strip_all(cond_)
+            d_, n_ = strip_all(outer.elem), strip_all(lenseq)
+            untouched = dict(vals_).get(name) == ("phi", outer.lid, name)
+            harmless = c_ in (("cmp", ">", d_, n_), ("cmp", "<", n_, d_), ("cmp", ">=", d_, ("bin", "+", n_, const(1))))
+            lossy = c_ in (("cmp", ">=", d_, n_), ("cmp", "<=", n_, d_), ("cmp", ">", d_, ("bin", "-", n_, const(1))), ("cmp", "==", d_, n_))
+            if untouched and lossy:
+                r.rep.ob(rule, q, False, "every number of deletions from 1 to max_edits is enumerated as long as the string has that many characters (deleting all of them gives the empty string, "
+                         "the only variant two short disjoint sequences share)", where, expected="stop only when d > len(seq)", found=f"break when {show(cond_, 60)}", key="early stop drops the full deletion")
+                return
+            if not (untouched and harmless):
+                raise AnalysisBroken(f"loop at line {getattr(outer.node, 'lineno', '?')} can be left by 'break': outside the idiom list of this rule; cannot decide")
     adds = [e for e in s.events_of("mutate") if e["name"] == name and e["method"] == "add"]
     upds = [e for e in s.events_of("mutate") if e["name"] == name and e["method"] == "update"]
 
@@ -1379,6 +1395,12 @@ def check_comb_gen(r, rule):
     asserted = {strip_all(a["cond"]) for a in s.events_of("assert")}
     extra_g = [(g, pol) for g, pol in e.ctx.guards if (g, pol) not in tuple(outer.ctx.guards) and not (pol and strip_all(g) in asserted)]
     extra_g = extra_g + [(c_, True) for c_ in comp_conds]
+    # (the negation of a harmless early stop - see above - guards everything after it; it skips nothing)
+    harmless_stops = {strip_all(c_) for c_, _ in (outer.breaks or ())}
+    extra_g = [(g, pol) for g, pol in extra_g if not ((not pol and strip_all(g) in harmless_stops)
+                                                      or (pol and head(strip_all(g)) == "un" and strip_all(g)[1] == "not" and strip_all(g)[2] in harmless_stops))]
+    if extra_g and outer.breaks:
+        raise AnalysisBroken(f"loop at line {getattr(outer.node, 'lineno', '?')} can be left by 'break' and its body is guarded: outside the idiom list of this rule; cannot decide")
     r.rep.ob(rule, q, not extra_g, "no variant is skipped", wh(r, q, e.node), expected="unguarded add", found=f"{len(extra_g)} guard(s)", key="comb unguarded")
     # the variant string
     v = strip(variant_term)
